@@ -102,6 +102,15 @@ static void run(Src &s) {
     g_case.evals += 2;
     same(rd, rc1, "readDirs", "readConfig(PARSING_DIRS)");
     same(rd, rc2, "readDirs", "readConfigWithCallback(PARSING_DIRS)");
+  } else if (pa.dirarg_mode[0] && !pa.dirarg_mode[1] && t.layers.size() > 1) {
+    // no vendor directory: the same two "directories" are an empty list element and the /etc one
+    pa.parsing_dirs_override = ":" + g_scr.dir + t.layers[1].dir;
+    Res rc1 = do_read(RM_CONFIG, true), rc2 = do_read(RM_CONFIG_CB, true);
+    pa.parsing_dirs_override.clear();
+    g_case.evals += 2;
+    g_case.tag("empty_first_parsing_dir");
+    same(rd, rc1, "readDirs(NULL/empty, etc)", "readConfig(PARSING_DIRS=:etc)");
+    same(rd, rc2, "readDirs(NULL/empty, etc)", "readConfigWithCallback(PARSING_DIRS=:etc)");
   }
   // ---- history
   CbCtx cb1, cb2;
